@@ -402,6 +402,10 @@ class NestedElem(str):
 def addr(lv):
     if isinstance(lv, Deref):
         return lv.ptr
+    if isinstance(lv, Elem) and getattr(lv, 'row_like', False):
+        a = Addr('%s_at(%s, %s_chk(%s, %s))' % (lv.cname, lv.cont, lv.cname, lv.cont, lv.idx))
+        a.lv = lv
+        return a
     if isinstance(lv, NestedElem) and lv.outer is not None:
         o = lv.outer
         a = Addr('(&%s_at(%s, %s_chk(%s, %s))->e[%s])' % (o.cname, o.cont, o.cname, o.cont, o.idx, lv.idx))
